@@ -75,3 +75,65 @@ def unwrap(fut):
     replay('chain', 'unwrap_kiwi')
     replay('value', 'unwrap_kiwi')
     replay('raises_nothing', 'unwrap_kiwi')
+
+
+# ------------------------------------------------------------------------------------------------ create_task (C20)
+@contract('plumpy.futures.create_task.<run_task>', props=['C20'])
+def run_task():
+    """the coroutine create_task schedules: `future` (closure variable) ends with exactly the outcome of the scheduled
+    computation -- its value, its Exception, or its cancellation -- and only a cancellation (or another BaseException-only class)
+    propagates into the task that runs it"""
+    requires(isinstance(future, asyncio.Future) and future._state == 'PENDING')
+    requires(is_heap_obj(coro))
+    n0 = len(calls())
+    modifies(user_effects, future._state, future._result, future._exception)
+    ev = calls()[n0]
+    ensures('called_once_without_arguments', len(calls()) == n0 + 1 and ev.fn is coro and len(seq(ev.args)) == 0)
+    ensures('value', implies(attr(ev, 'raised') is None, future._state == 'FINISHED' and future._exception is None
+                             and future._result is (attr(ev, 'awaited') if attr(ev, 'was_awaited') else attr(ev, 'result'))))
+    ensures('exception', implies(attr(ev, 'raised') is not None, isinstance(attr(ev, 'raised'), Exception)
+                                 and future._state == 'FINISHED' and future._exception is attr(ev, 'raised')))
+    raises(asyncio.CancelledError, future._state == 'CANCELLED' and len(calls()) == n0 + 1)
+    raises(BaseException, not isinstance(exc, Exception) and not isinstance(exc, asyncio.CancelledError) and len(calls()) == n0 + 1)
+    replay('value', 'task_outcomes')
+    replay('exception', 'task_outcomes')
+    replay('raises_only_declared', 'task_outcomes')
+
+
+# ------------------------------------------------------------------------------------------------ loop future -> communicator future (C20)
+@contract('plumpy.communications.plum_to_kiwi_future', props=['C20'], result_class='kiwipy.Future')
+def plum_to_kiwi_future(plum_future):
+    """the mirror is a fresh pending communicator future; exactly one done-callback is registered on the loop future"""
+    requires(isinstance(plum_future, asyncio.Future) and wf_future(plum_future))
+    modifies(contents(plum_future._callbacks), ghost('CB'))
+    raises_nothing()
+    ensures('fresh_pending_mirror', fresh(ret) and ret._state == 'PENDING')
+    ensures('one_callback_registered', implies(plum_future._state == 'PENDING',
+                                               len(seq(plum_future._callbacks)) == old(len(seq(plum_future._callbacks))) + 1))
+
+
+@contract('plumpy.communications.plum_to_kiwi_future.<on_done>', props=['C20'])
+def plum_on_done(_plum_future):
+    """done-callback of the loop future: the mirror (`kiwi_future`, closure variable) ends with the cancellation, the exception or
+    the value of the loop future -- a value that is itself a loop future is mirrored in turn -- and nothing escapes"""
+    requires(isinstance(plum_future, asyncio.Future) and wf_future(plum_future) and plum_future._state != 'PENDING')
+    requires(isinstance(kiwi_future, kiwipy.Future) and kiwi_future._state == 'PENDING')
+    requires(implies(isinstance(plum_future._result, asyncio.Future), wf_future(plum_future._result)))
+    inner = plum_future._result
+    modifies(kiwi_future._state, kiwi_future._result, kiwi_future._exception, contents(inner._callbacks, when=isinstance(inner, asyncio.Future)),
+             ghost('CB'))
+    raises_nothing()
+    ensures('cancellation', implies(plum_future._state == 'CANCELLED', kiwi_future._state == 'CANCELLED'))
+    ensures('exception', implies(plum_future._state == 'FINISHED' and plum_future._exception is not None
+                                 and isinstance(plum_future._exception, Exception),
+                                 kiwi_future._state == 'FINISHED' and kiwi_future._exception is plum_future._exception))
+    ensures('value', implies(plum_future._state == 'FINISHED' and plum_future._exception is None and not isinstance(inner, asyncio.Future),
+                             kiwi_future._state == 'FINISHED' and kiwi_future._exception is None and kiwi_future._result is inner))
+    ensures('future_value_is_mirrored', implies(plum_future._state == 'FINISHED' and plum_future._exception is None and isinstance(inner, asyncio.Future),
+                                                kiwi_future._state == 'FINISHED' and kiwi_future._exception is None
+                                                and isinstance(kiwi_future._result, kiwipy.Future) and fresh(kiwi_future._result)))
+    replay('cancellation', 'task_outcomes')
+    replay('exception', 'task_outcomes')
+    replay('value', 'task_outcomes')
+    replay('future_value_is_mirrored', 'task_outcomes')
+    replay('raises_nothing', 'task_outcomes')
